@@ -86,3 +86,58 @@ where
     }
     out
 }
+
+
+/// Runs `f()` in a forked child and returns its result, or `None` when the child has not
+/// finished after `secs` seconds (it is killed) or died abnormally.
+pub fn fork_timeout<T, F>(secs: u64, f: F) -> Option<T>
+where
+    T: Serialize + DeserializeOwned,
+    F: FnOnce() -> T,
+{
+    let dir = tmp_dir();
+    static ROUND: std::sync::atomic::AtomicU64 = std::sync::atomic::AtomicU64::new(0);
+    let round = ROUND.fetch_add(1, std::sync::atomic::Ordering::SeqCst);
+    let path = dir.join(format!("ft.{}.{}.bin", std::process::id(), round));
+    let _ = std::io::stdout().flush();
+    let _ = std::io::stderr().flush();
+    let pid = unsafe { libc::fork() };
+    if pid < 0 {
+        crate::evidence::machinery_failure("fork failed");
+    }
+    if pid == 0 {
+        let res = std::panic::catch_unwind(std::panic::AssertUnwindSafe(f));
+        let code = match res {
+            Ok(v) => match std::fs::write(&path, bincode::serialize(&v).expect("bincode serialize")) {
+                Ok(()) => 0,
+                Err(_) => 3,
+            },
+            Err(_) => 4,
+        };
+        unsafe { libc::_exit(code) };
+    }
+    let start = std::time::Instant::now();
+    let mut status: libc::c_int = 0;
+    loop {
+        let r = unsafe { libc::waitpid(pid, &mut status, libc::WNOHANG) };
+        if r == pid {
+            break;
+        }
+        if start.elapsed().as_secs() >= secs {
+            unsafe {
+                libc::kill(pid, libc::SIGKILL);
+                libc::waitpid(pid, &mut status, 0);
+            }
+            let _ = std::fs::remove_file(&path);
+            return None;
+        }
+        std::thread::sleep(std::time::Duration::from_millis(2));
+    }
+    let ok = libc::WIFEXITED(status) && libc::WEXITSTATUS(status) == 0;
+    let bytes = std::fs::read(&path).unwrap_or_default();
+    let _ = std::fs::remove_file(&path);
+    if !ok {
+        return None;
+    }
+    bincode::deserialize::<T>(&bytes).ok()
+}
